@@ -7,7 +7,11 @@ Binding (impl -> spec): whatever the real `unify` returns on all pairs of
 Full(1) and on seeded deeper pairs is judged by TLC with the specification's
 Sub: it must be a supertype of both arguments, and the argument itself when
 both are equal.  (Whether it equals the specification's own Join is recorded
-as information: a better join is not a violation.)"""
+as information: a better join is not a violation.)  The n-ary path (unify_all)
+is bound through the checker itself: list literals and three-armed matches
+over a pool of 19 typed expressions are typed by the real checker (hover) and
+the reported type must cover every element's type, again by the
+specification's Sub."""
 from props import c14
 
 
